@@ -1,12 +1,12 @@
 #!/bin/bash
-# usage: tools/confirm_seed3.sh <ID> <A|B>  — confirm a round-3 seeded change in its scratch worktree /tmp/seed3/<ID>
+# usage: tools/confirm_seed3.sh <ID> <A|B>  — confirm a seeded change in its scratch worktree $SEED_ROOT/<ID> (default /tmp/seed3)
 # (deliverables in /tmp/seed3/<ID>-out/<V>/): suite with patch passes, demo passes clean, demo fails with patch
-ID="$1"; V="$2"; W=/tmp/seed3/$ID; S=/tmp/seed3/$ID-out/$V
+ROOT="${SEED_ROOT:-/tmp/seed3}"; ID="$1"; V="$2"; W=$ROOT/$ID; S=$ROOT/$ID-out/$V
 export CARGO_NET_OFFLINE=true CARGO_TARGET_DIR=$W/target
 cd "$W" || exit 9
 clean() { git checkout -q -- . ; git clean -fdq -e target; }
 run() { cargo test --workspace --offline --no-fail-fast >"$1" 2>&1; echo $?; }
-L=/tmp/seed3/$ID-out/confirm-$V; mkdir -p "$L"
+L=$ROOT/$ID-out/confirm-$V; mkdir -p "$L"
 clean; git apply "$S/patch.diff" || { echo "$ID-$V patch does not apply"; exit 8; }
 A=$(run "$L/patch.log"); PA=$(grep -c "^test .* ok$" "$L/patch.log")
 clean; git apply "$S/demo.diff" || { echo "$ID-$V demo does not apply"; exit 8; }
